@@ -9,6 +9,7 @@ import (
 	"fmt"
 	"os"
 	"runtime"
+	"runtime/pprof"
 	"strings"
 	"time"
 )
@@ -40,6 +41,12 @@ func main() {
 		fmt.Sscan(v, &n)
 		if n > 0 {
 			runtime.GOMAXPROCS(n)
+		}
+	}
+	if pf := os.Getenv("VERIF_CPUPROFILE"); pf != "" {
+		if f, err := os.Create(pf); err == nil {
+			_ = pprof.StartCPUProfile(f)
+			defer pprof.StopCPUProfile()
 		}
 	}
 	switch os.Args[1] {
@@ -87,8 +94,16 @@ func cmdRun(args []string) {
 		}
 		fmt.Fprintf(os.Stderr, "begin %d\n", run)
 		b.beginRun(uint64(run))
+		t0 := time.Now()
 		runOne(b, &a, uint64(run))
 		b.endRun()
+		if d := time.Since(t0).Seconds(); d > b.Extra["max_wall_s_of_one_workload"] {
+			if b.Extra == nil {
+				b.Extra = map[string]float64{}
+			}
+			b.Extra["max_wall_s_of_one_workload"] = d
+			b.Extra["max_wall_workload_index"] = float64(run)
+		}
 	}
 	b.WallS = time.Since(start).Seconds()
 	b.finish()
